@@ -659,6 +659,10 @@ class Pure:
                 if name == "normal_size":
                     return Num(v, "int")
                 return freeze(self.I, v, self.st.heap)
+            as_implication = False
+            if name.endswith("_IMP") and name[:-4] in LM.SUM_LEMMAS:
+                name = name[:-4]          # keep the instance as an implication (premise not established here)
+                as_implication = True
             if name in LM.SUM_LEMMAS:
                 # application of a lemma that is proved (by induction) in the same check run: its instance is assumed
                 vs, hi, body, pats = LM._stmt(name)
@@ -675,7 +679,7 @@ class Pure:
                         subst.append((fv_, to_real(a)))
                 inst = z3.substitute(body, *subst)
                 self.I.lemmas_applied.add(name)
-                if z3.is_implies(inst) and self.st is not None:
+                if z3.is_implies(inst) and self.st is not None and not as_implication:
                     # Dafny-style lemma call: the instance's premise is an obligation *here*, only its conclusion is assumed
                     ante, concl = inst.children()
                     for d in self.defs:
